@@ -461,13 +461,13 @@ pub fn declarative(u: &Universe, order: &[usize]) -> Snap {
 	let mut s = Snap::default();
 	// channels: the unique fully valid announcement per scid
 	for &i in order {
-		if let Facts::CA { scid, n1, n2, b1, b2, chain_ok, sigs_ok, features_le, .. } = &u.msgs[i].facts {
+		if let Facts::CA { scid, n1, n2, b1, b2, chain_ok, sigs_ok, features_le, excess_len } = &u.msgs[i].facts {
 			let mut ks = [*b1, *b2];
 			ks.sort();
 			let ok = n1 < n2 && b1 != b2 && *chain_ok && sigs_ok.iter().all(|x| *x) && u.chain.utxos.get(scid).map(|e| e.keys == ks).unwrap_or(false);
 			if ok && !s.channels.contains_key(scid) {
 				let cap = u.chain.utxos[scid].sats;
-				s.channels.insert(*scid, ChanSnap { features_le: features_le.clone(), n1: *n1, n2: *n2, cap: Some(cap), dirs: [None, None], ann: Some(u.msgs[i].full.clone()) });
+				s.channels.insert(*scid, ChanSnap { features_le: features_le.clone(), n1: *n1, n2: *n2, cap: Some(cap), dirs: [None, None], ann: if *excess_len <= 1024 { Some(u.msgs[i].full.clone()) } else { None } });
 				for n in [n1, n2] {
 					let e = s.nodes.entry(*n).or_insert(NodeSnap { channels: vec![], ann: None });
 					e.channels.push(*scid);
@@ -478,21 +478,21 @@ pub fn declarative(u: &Universe, order: &[usize]) -> Snap {
 	}
 	for &i in order {
 		match &u.msgs[i].facts {
-			Facts::CU { scid, dir, ts, chain_ok, disabled, dont_forward, cltv, hmin, hmax, fee_base, fee_prop, verifies_under, .. } => {
+			Facts::CU { scid, dir, ts, chain_ok, disabled, dont_forward, cltv, hmin, hmax, fee_base, fee_prop, verifies_under, excess_len } => {
 				if let Some(c) = s.channels.get_mut(scid) {
 					let key = if *dir == 0 { c.n1 } else { c.n2 };
 					let valid = *chain_ok && !*dont_forward && *hmax <= MAX_VALUE_MSAT && *hmax <= c.cap.unwrap() * 1000 && verifies_under.contains(&key);
 					let newer = c.dirs[*dir as usize].as_ref().map(|d| d.ts < *ts).unwrap_or(true);
 					if valid && newer {
-						c.dirs[*dir as usize] = Some(DirSnap { enabled: !*disabled, ts: *ts, cltv: *cltv, hmin: *hmin, hmax: *hmax, fee_base: *fee_base, fee_prop: *fee_prop, msg: Some(u.msgs[i].full.clone()) });
+						c.dirs[*dir as usize] = Some(DirSnap { enabled: !*disabled, ts: *ts, cltv: *cltv, hmin: *hmin, hmax: *hmax, fee_base: *fee_base, fee_prop: *fee_prop, msg: if *excess_len <= 1024 { Some(u.msgs[i].full.clone()) } else { None } });
 					}
 				}
 			},
-			Facts::NA { node, ts, sig_ok, features_le, rgb, alias, addrs, .. } => {
+			Facts::NA { node, ts, sig_ok, features_le, rgb, alias, addrs, excess_len } => {
 				if let Some(n) = s.nodes.get_mut(node) {
 					let newer = n.ann.as_ref().map(|a| a.ts < *ts).unwrap_or(true);
 					if *sig_ok && newer {
-						n.ann = Some(NodeAnnSnap { features_le: features_le.clone(), ts: *ts, rgb: *rgb, alias: *alias, addrs: addrs.clone(), msg: Some(u.msgs[i].full.clone()) });
+						n.ann = Some(NodeAnnSnap { features_le: features_le.clone(), ts: *ts, rgb: *rgb, alias: *alias, addrs: addrs.clone(), msg: if *excess_len <= 1024 { Some(u.msgs[i].full.clone()) } else { None } });
 					}
 				}
 			},
